@@ -25,7 +25,7 @@ balanced by default) — with its own options and the current time — on the vi
 `⟨[gc], stations of the connected vehicles, connected vehicles, batteries of gc⟩`, append its commands, and put the
 objects it returned back (`mergeDeps`).  The connector after the treatment is the connector the sub-strategy
 returned, nothing else. -/
-theorem C14_distributed_deps_is_substep {B : Type} (dops : DOps α B) (de : DEnv α) (hd : de.deps.ps = none)
+theorem C14_distributed_deps_is_substep {B : Type} (dops : DOps α B) (de : DEnv α) (hd : de.deps.isRule)
     (ncs : List (String × Option Int)) (conn : List (String × List String)) (lk : Look α)
     (w : SWorld α B) (ini : DInit α) (acc : List (String × α)) (gcId : String)
     (gc : GcS α) (cands : List String) (cvs : List (VehicleS α B)) (stations : List (StationS α))
@@ -47,11 +47,11 @@ theorem C14_distributed_deps_is_substep {B : Type} (dops : DOps α B) (de : DEnv
     unfold stepGc
     simp only [hgc, hc, hcv, hne, hk, hs, bind, Except.bind, Bool.false_eq_true, if_false]
   constructor
-  · rw [heq]; unfold stepDeps; simp only [hd]; unfold stepDepsRule
+  · rw [heq]; unfold stepDeps; simp only [hd.1, hd.2]; unfold stepDepsRule
     simp only [bind, Except.bind, SubStrat.env]
   · intro w' ini' acc' h
     rw [heq] at h
-    unfold stepDeps at h; simp only [hd] at h; unfold stepDepsRule at h
+    unfold stepDeps at h; simp only [hd.1, hd.2] at h; unfold stepDepsRule at h
     simp only [bind, Except.bind] at h
     split at h
     · cases h
@@ -82,7 +82,7 @@ such a connector returns, it ran the opportunity sub-strategy (`strategy_opps`, 
 current time — on the virtual world `⟨[gc], stations of the connected vehicles, connected vehicles, no batteries⟩`;
 the commands appended are the sub-strategy's commands, the connector afterwards is the connector the sub-strategy
 returned, the stationary batteries of the world are untouched. -/
-theorem C14_distributed_opps_is_substep {B : Type} (dops : DOps α B) (de : DEnv α) (ho : de.opps.ps = none)
+theorem C14_distributed_opps_is_substep {B : Type} (dops : DOps α B) (de : DEnv α) (ho : de.opps.isRule)
     (ncs : List (String × Option Int)) (conn : List (String × List String)) (lk : Look α)
     (w : SWorld α B) (ini : DInit α) (acc : List (String × α)) (gcId : String)
     (gc : GcS α) (cands : List String) (cvs : List (VehicleS α B)) (stations : List (StationS α))
@@ -98,7 +98,7 @@ theorem C14_distributed_opps_is_substep {B : Type} (dops : DOps α B) (de : DEnv
   unfold stepGc at h
   simp only [hgc, hc, hcv, hb, hne, hk, hs, bind, Except.bind, List.isEmpty_nil, Bool.and_true,
     Bool.false_eq_true, if_false] at h
-  unfold stepOpps at h; simp only [ho] at h; unfold stepOppsRule at h
+  unfold stepOpps at h; simp only [ho.1, ho.2] at h; unfold stepOppsRule at h
   simp only [List.foldlM_nil, pure, Except.pure, bind, Except.bind, List.append_nil] at h
   split at h
   · cases h
@@ -124,7 +124,7 @@ theorem C14_distributed_opps_is_substep {B : Type} (dops : DOps α B) (de : DEnv
 /-- **Independence (frame).** Treating connector `gcId` leaves every other connector exactly as it was — loads,
 limit, price — and neither adds nor removes connectors. -/
 theorem C14_distributed_other_connectors_untouched {B : Type} (dops : DOps α B) (de : DEnv α)
-    (hd : de.deps.ps = none) (ho : de.opps.ps = none)
+    (hd : de.deps.isRule) (ho : de.opps.isRule)
     (ncs : List (String × Option Int)) (conn : List (String × List String)) (lk : Look α)
     (st st' : SWorld α B × DInit α × List (String × α)) (gcId : String)
     (h : stepGc dops de ncs conn lk st gcId = .ok st') :
